@@ -196,6 +196,30 @@ def run(chk):
                     pm_cases.append(f"({qmat(R.tolist())}, {qlist(hd)}, {qlist(hm)}, {qlit(val)}, {qlit(1e-9)})")
                     pm_pf.append(None)
                     pm_desc.append(dict(desc, variant=vn, variant_value=val, corrcoef=R.tolist()))
+    # ---- large samples (beyond any internal block size): row order and X/Y roles for the fast estimators
+    for t in range(6 if quick else 120):
+        name = ["knn", "gaussian", "knn"][t % 3]
+        N = int(rng.choice([1025, 1100, 1500, 2049, 2500])) if t % 2 == 0 else int(rng.integers(1026, 2600))
+        kx, ky = int(rng.integers(1, 3)), int(rng.integers(1, 3))
+        cond = t % 4 >= 2
+        kz = 2 if cond else 0
+        d = kx + ky + kz
+        W = rng.normal(size=(N, d)) @ (np.eye(d) + 0.5 * rng.normal(size=(d, d)))
+        X, Y, Z = W[:, :kx].copy(), W[:, kx:kx + ky].copy(), (W[:, kx + ky:].copy() if cond else None)
+        s_ = {"metric": "euclidean", "k": int(rng.integers(1, 6))} if name == "knn" else {}
+        v0 = call(name, "direct", X, Y, Z, s_)
+        perm = rng.permutation(N)
+        tfs = {"row_perm": (X[perm], Y[perm], None if Z is None else Z[perm]), "row_reverse": (X[::-1], Y[::-1], None if Z is None else Z[::-1]),
+               "swap_xy": (Y, X, Z)}
+        chk.case(key=("large", name, W.tobytes(), cond), nontrivial=True)
+        chk.count("large_N.samples")
+        for tname, (X2, Y2, Z2) in tfs.items():
+            v1 = call(name, "direct", np.ascontiguousarray(X2), np.ascontiguousarray(Y2), None if Z2 is None else np.ascontiguousarray(Z2), s_)
+            if not close(v0, v1):
+                chk.violation("counterexample", f"{name} estimator (N={N}, {'Z present' if cond else 'Z absent'}): value {v0} becomes {v1} after {tname}",
+                              {"estimator": name, "settings": s_, "N": N, "conditional": cond, "transform": tname, "seed_stream": "large_N",
+                               "value": v0, "transformed_value": v1, "how": f"rows generated in harness/props/C10.py large-N stream, index {t}"},
+                              {"site": f"{name}/{'Z present' if cond else 'Z absent'}", "transform": tname})
     lib.correspond(chk, "knn_model_on_original_and_transformed", IMPORTS,
                    "metric * nat * bool * list (list Z * list Z * list Z) * option Q * Q", "check_knn_case",
                    knn_cases, knn_pf, lambda i: knn_desc[i], shard=30, jobs=10)
